@@ -42,5 +42,5 @@ TNext == TNew \/ TSetAttr \/ TBadKey \/ TSetAll \/ TReset \/ TClone \/ TJump
 \* the contract is evaluated on every step of every recorded history
 TInBounds == InBounds
 TNanOnlyIfAllowed == NanOnlyIfAllowed
-Done == PrintT(<<"VALIDATED", Len(TLog)>>)
+Done == TLCGet("stats").diameter >= 0 /\ PrintT(<<"VALIDATED", Len(TLog)>>)
 ==========================================================================
